@@ -1,7 +1,7 @@
 (* C07 -- A stochastic object stops growing at the first unit that exceeds its drawn mass.
    For every input, pick stream and list of drawn targets (negative, tiny and huge ones included). *)
 From Coq Require Import List ZArith QArith Ascii String Bool.
-From GBS Require Import Model.PyStr Model.Num Model.Bond Model.Select Model.Gen Proofs.BondP Proofs.GenP Props.GenExample Proofs.GenFuel.
+From GBS Require Import Model.PyStr Model.Num Model.Bond Model.Select Model.Gen Proofs.BondP Proofs.GenP Props.GenExample Proofs.GenFuel Model.Sys Src.SrcGen Proofs.GenSrcP.
 Import ListNotations.
 Open Scope Q_scope.
 
@@ -55,6 +55,17 @@ Print Assumptions C07_units_bounded.
 Theorem C07_loops_terminate : forall els pk tg, run_gen els pk tg <> OutOfFuel.
 Proof. exact run_gen_never_out_of_fuel. Qed.
 Print Assumptions C07_loops_terminate.
+
+(* tie T: the growth loop written over the decision expressions REGENERATED from stochastic.py (Src/SrcGen.v; statement skeleton checked)
+   is the loop of the theorems above; its stop decision is `added mass > drawn target`, evaluated after the unit was attached *)
+Theorem C07_growth_loop_is_source : forall fuel s ei start T g units st,
+  grow_loop_src fuel s ei start T g units st = grow_loop fuel s ei start T g units st.
+Proof. exact grow_loop_is_source. Qed.
+Print Assumptions C07_growth_loop_is_source.
+
+Theorem C07_stop_decision_is_source : forall mass start T, mass_exceeded mass start T = negb (Qle_bool (Qred (mass - start)) T).
+Proof. exact mass_exceeded_is. Qed.
+Print Assumptions C07_stop_decision_is_source.
 
 Example C07_example :
   match run_gen ex1_els ex1_picks ex1_targets with
